@@ -166,7 +166,7 @@ let bv_case f =
   let inherited = (kind = "sparse" || kind = "sparse4" || kind = "sparse128") in
   let tab name cnt f = name ^ "=" ^ String.concat "," (List.init cnt (fun i -> f (nat_of_int i))) in
   let rank = bv_rank bits in
-  String.concat " " [
+  let by_list = String.concat " " [
     "len=" ^ show_nat len;
     tab "a" (n + 2) (fun i -> show_opt (fun b -> if b then "1" else "0") (bv_access bits i));
     tab "r" (n + 2) (fun i -> show_opt show_nat (rank i));
@@ -177,7 +177,38 @@ let bv_case f =
     tab "t" (zeros + 3) (fun i ->
       if inherited then show_res (show_opt show_nat) (default_select0 len rank i)
       else show_opt show_nat (bv_select0 bits i));
-    tab "ds" (ones + 3) (fun i -> show_res (show_opt show_nat) (default_select len rank i)) ]
+    tab "ds" (ones + 3) (fun i -> show_res (show_opt show_nat) (default_select len rank i)) ] in
+  (* the same tables through the structural model of the implementation, where there is one *)
+  let structural access rank select select0 =
+    let rank_opt i = match rank i with Ok r -> r | _ -> None in
+    String.concat " " [
+      "len=" ^ show_nat len;
+      tab "a" (n + 2) (fun i -> show_res (show_opt (fun b -> if b then "1" else "0")) (access i));
+      tab "r" (n + 2) (fun i -> show_res (show_opt show_nat) (rank i));
+      tab "z" (n + 2) (fun i -> show_opt show_nat (default_rank0 rank_opt i));
+      tab "s" (ones + 3) (fun i -> show_res (show_opt show_nat) (select i));
+      tab "t" (zeros + 3) (fun i -> show_res (show_opt show_nat) (select0 rank_opt i)) ] in
+  let idx = List.filteri (fun _ _ -> true) (List.concat (List.mapi (fun i b -> if b then [nat_of_int i] else []) bits)) in
+  let sparse_branch = match kind with "sparse" -> Some 16 | "sparse4" -> Some 4 | "sparse128" -> Some 128 | _ -> None in
+  match sparse_branch with
+  | Some br ->
+      (* kind sparse is BitVector::construct(bits); the others call from_indices with their branch *)
+      (match (if kind = "sparse" then sv_construct bits else sv_from_indices (nat_of_int br) len idx) with
+       | Some v ->
+           by_list ^ " || " ^ structural (sv_access v) (sv_rank v) (fun k -> Ok (sv_select v k))
+                                (fun rk k -> default_select0 len rk k)
+       | None -> by_list ^ " || CE")
+  | None ->
+      if kind = "rrr" then
+        (match rr_construct bits with
+         | Ok v -> by_list ^ " || " ^ structural (rr_access v) (rr_rank v) (rr_select v) (fun _ k -> rr_select0 v k)
+         | _ -> by_list ^ " || CE")
+      else by_list
+
+(* the L and K tables of the rrr model, for comparison with the literals in rrr.rs *)
+let rrrtab_case () =
+  let (l, k) = rrr_tables in
+  "L=" ^ show_nats l ^ " K=" ^ String.concat ";" (List.map show_ns k)
 
 let wt_case f =
   let syms = nums (List.nth f 2) in
@@ -201,7 +232,17 @@ let wt_case f =
     | Ok (tree, chars) ->
         tables (string_of_int n) (pt_access (fw_dec chars) tree) (pt_rank_q (fw_enc chars) tree) (pt_select_q (fw_enc chars) tree)
     | Err -> "CE" | Panic -> "CP" | NoFuel -> "CF" in
-  iface ^ " || " ^ structural
+  (* ... and once with every node of that tree an rrr vector (the rt_ functions over rt_of) *)
+  let flat = function Ok r -> r | _ -> None in
+  let over_rrr =
+    match fw_tree t with
+    | Ok (tree, chars) ->
+        (match rt_of tree with
+         | Ok rt -> tables (string_of_int n) (fun x -> flat (rt_access (fw_dec chars) rt x))
+                      (fun q x -> flat (rt_rank_q (fw_enc chars) rt q x)) (fun q k -> flat (rt_select_q (fw_enc chars) rt q k))
+         | Err -> "RE" | Panic -> "RP" | NoFuel -> "RF")
+    | _ -> "CE" in
+  iface ^ " || " ^ structural ^ " || " ^ over_rrr
 
 let sais_case f =
   let text = List.map n_of_int (nums (List.nth f 1)) in
@@ -223,6 +264,7 @@ let () =
           match List.hd f with
           | "doc" -> doc_case f
           | "bv" -> bv_case f
+          | "rrrtab" -> rrrtab_case ()
           | "wt" -> wt_case f
           | "sais" -> sais_case f
           | "" -> ""
